@@ -131,14 +131,36 @@ def parser_standin(extra_args=()):
     scratch = os.path.join(paths.scratch_root(), "standin-suite")
     os.makedirs(scratch, exist_ok=True)
     env["VTL_TEMP_DIRECTORY"] = scratch
-    cmd = [sys.executable, "-m", "pytest", "-q", "-x" if "--x" in extra_args else "-q", "-p", "vtlsim_standin_plugin",
-           "-p", "no:cacheprovider", "-n", "8", "--timeout=900", "-o", "addopts=", "tests"]
-    r = subprocess.run(cmd, cwd=paths.REPO, env=env, capture_output=True, text=True)
+    junit = os.path.join(scratch, "junit.xml")
+    cmd = [sys.executable, "-m", "pytest", "-q", "-p", "vtlsim_standin_plugin", "-p", "no:cacheprovider",
+           "-n", os.environ.get("VERIF_SUITE_WORKERS", "8"), "--timeout=900", "-o", "addopts=", "--junitxml=" + junit, "tests"]
+    subprocess.run(cmd, cwd=paths.REPO, env=env, capture_output=True, text=True)
     import shutil
+    import xml.etree.ElementTree as ET
 
+    passed = failed_xml = 0
+    failed = []
+    skipped = 0
+    for tc in ET.parse(junit).iter("testcase"):
+        kids = list(tc)
+        bad = [k for k in kids if k.tag in ("failure", "error")]
+        if any(k.tag == "skipped" for k in kids):
+            skipped += 1
+        elif not bad:
+            passed += 1
+        else:
+            text = " ".join((k.get("message") or "") + (k.text or "") for k in bad)
+            if "pysdmx[xml]" in text or "xml extra" in text.lower() or "lxml" in text or "sdmxschemas" in text or "xmltodict" in text:
+                failed_xml += 1
+            else:
+                failed.append("%s::%s" % (tc.get("classname"), tc.get("name")))
     shutil.rmtree(scratch, ignore_errors=True)
-    tail = (r.stdout + r.stderr).strip().splitlines()[-15:]
-    print("\n".join(tail))
+    res = {"passed": passed, "failed_other": len(failed), "failed_for_missing_pysdmx_xml_extra": failed_xml, "skipped": skipped,
+           "failed_other_names": failed[:40]}
+    print(json.dumps(res, indent=1))
+    out = os.path.join(paths.BUILD, "standin_suite_result.json")
+    with open(out, "w") as f:
+        json.dump(res, f, indent=1)
     return 0
 
 
